@@ -2140,6 +2140,10 @@ class UTPM(Ring, RawAlgorithmsMixIn):
             LU  = A.zeros_like()
             PIV = cls(numpy.zeros((D,P,N))) # permutation
 
+        else:
+            LU, PIV = out
+            PIV.data[1:] = 0
+
         for p in range(P):
             # D = 0
             lu, piv = scipy.linalg.lu_factor(A.data[0,p])
@@ -2168,8 +2172,7 @@ class UTPM(Ring, RawAlgorithmsMixIn):
                 Ud = numpy.dot(numpy.triu(dF, 0), U0)
                 Ld = numpy.dot(L0, numpy.tril(dF, -1))
 
-                LU.data[d, p] += Ud
-                LU.data[d, p] += Ld
+                LU.data[d, p] = Ud + Ld
 
         return LU, PIV
 
@@ -2185,6 +2188,9 @@ class UTPM(Ring, RawAlgorithmsMixIn):
             U = A.zeros_like()
             W = A.zeros_like() # permutation matrix
 
+        else:
+            W, L, U = out
+            W.data[1:] = 0
 
         for p in range(P):
             # D = 0
@@ -2240,6 +2246,10 @@ class UTPM(Ring, RawAlgorithmsMixIn):
             PIV = cls(numpy.zeros((D,P,N), dtype=int)) # pivot elements
             L = A.zeros_like()
             U = A.zeros_like()
+
+        else:
+            PIV, L, U = out
+            PIV.data[1:] = 0
 
         for p in range(P):
             # D = 0
@@ -2947,6 +2957,9 @@ class UTPM(Ring, RawAlgorithmsMixIn):
             s = cls(cls.__zeros__((D,P,K), dtype=A.data.dtype))
             V = cls(cls.__zeros__((D,P,N,N), dtype=A.data.dtype))
 
+        else:
+            Uout, s, Vout = out
+
         # real symmetric eigenvalue decomposition
 
         B = cls(cls.__zeros__((D,P, M+N, M+N), dtype=A.data.dtype))
@@ -2983,6 +2996,11 @@ class UTPM(Ring, RawAlgorithmsMixIn):
         # V[:,r:] = Q[M:,r+M:]
         V[:, r:] = cls.qr_full(V[:,:r])[0][:, r:]
         s[:] = l[:K]
+
+        if out is not None:
+            Uout.data[...] = U.data
+            Vout.data[...] = V.data
+            U, V = Uout, Vout
 
         return U, s, V
 
@@ -3218,7 +3236,7 @@ class UTPM(Ring, RawAlgorithmsMixIn):
             B = cls( numpy.zeros( (D,P) + Bshp, dtype=A.dtype))
 
         else:
-            r, = out
+            B, = out
 
         for d in range(D):
             for p in range(P):
